@@ -395,6 +395,34 @@ pub fn mm_remove(m: &mut Mm) {
     m.seen.remove(&1);
 }
 
+pub struct Ctr {
+    pub hits: u64,
+    pub misses: u32,
+}
+
+/// a counter that is only ever updated (statistics): no read reaches a decision
+pub fn ctr_stat_only(c: &mut Ctr, x: u32) {
+    c.hits += 1;
+    c.hits = c.hits.wrapping_add(2);
+    c.misses = c.misses.saturating_add(1);
+    act(x);
+}
+
+/// the counter's value reaches a branch: it carries logic
+pub fn ctr_bad_logic(c: &mut Ctr, x: u32) {
+    c.hits += 1;
+    if c.hits > 64 {
+        return;
+    }
+    act(x);
+}
+
+/// the counter's value is handed to a function: it may carry logic
+pub fn ctr_bad_passed(c: &mut Ctr) {
+    c.misses = c.misses.saturating_add(1);
+    act(c.misses);
+}
+
 /// guard spelled through a bool local with one computed and one constant arm
 pub fn guard_ok_via_bool_local(s: &St, x: u32) {
     let free = match s.votes.first() {
